@@ -272,6 +272,17 @@ fn oracle_release(rec: &mut Recorder, slot: &mut Slot, pre: &Snap, out: &[Msg], 
             if kind == Kind::TlOrder {
                 chk(r.len() <= 1, "released-more-than-one", d());
             }
+            if kind == Kind::StreamNo {
+                rec.count(if r.is_empty() {
+                    "branch:streamNo:nothing"
+                } else if r.last() == pre.q.last() {
+                    "branch:streamNo:ended-at-last-index(min_index==len)"
+                } else if r.len() > 1 && !pre.q.starts_with(&r) {
+                    "branch:streamNo:gapped-subset"
+                } else {
+                    "branch:streamNo:stopped-by-draw"
+                });
+            }
             !r.is_empty()
         }
         Kind::TlFold => {
@@ -370,21 +381,48 @@ fn oracle_release(rec: &mut Recorder, slot: &mut Slot, pre: &Snap, out: &[Msg], 
                 chk(pre.q == post.q, "lost-or-duplicated", d());
             }
             slot.last = Some(x);
+            rec.count(if !new && !pre.q.is_empty() {
+                "branch:singleton:unchanged-with-pending"
+            } else if !new {
+                "branch:singleton:unchanged-empty-buffer"
+            } else if pre.q.first() != Some(&x) {
+                "branch:singleton:new-skipping-older"
+            } else {
+                "branch:singleton:new-oldest"
+            });
             new
         }
         Kind::Passthrough => {
+            // the fold pushes its accumulator values in strictly increasing order: value = version
             let r = items_of(out);
             if r.len() != 1 || out.len() != 1 {
                 chk(false, "not-one-snapshot", d());
                 return false;
             }
-            chk(pre.q.last() == Some(&r[0]) || pre.q.is_empty(), "snapshot-not-latest", d());
-            chk(post.q.is_empty() || pre.q.is_empty(), "lost-or-duplicated", d());
+            let x = r[0];
             if let Some(l) = slot.last {
-                chk(r[0] >= l, "snapshot-regressed", format!("last={l} {}", d()));
+                chk(x >= l, "snapshot-regressed", format!("last={l} {}", d()));
             }
-            slot.last = Some(r[0]);
-            true
+            let new = if pre.q.is_empty() {
+                // nothing new from the fold: the last released snapshot again, buffer untouched
+                chk(slot.last == Some(x), "snapshot-invented", format!("last={:?} {}", slot.last, d()));
+                chk(post.q.is_empty(), "lost-or-duplicated", d());
+                false
+            } else {
+                // always the newest buffered value; the older ones are dropped with it
+                chk(pre.q.last() == Some(&x), "snapshot-not-latest", d());
+                chk(post.q.is_empty(), "lost-or-duplicated", d());
+                true
+            };
+            slot.last = Some(x);
+            rec.count(if !new {
+                "branch:passthrough:unchanged-rerelease"
+            } else if pre.q.len() > 1 {
+                "branch:passthrough:new-dropping-older"
+            } else {
+                "branch:passthrough:new-single"
+            });
+            new
         }
         Kind::KeyedSingleton => {
             let r = by_key(out);
@@ -392,10 +430,14 @@ fn oracle_release(rec: &mut Recorder, slot: &mut Slot, pre: &Snap, out: &[Msg], 
             chk(prem.keys().eq(postm.keys()) && r.keys().all(|k| prem.contains_key(k)), "keys-changed", d());
             chk(r.values().all(|v| v.len() == 1) && r.len() == out.len(), "not-one-snapshot-per-key", d());
             let mut any_new = false;
+            let mut branches: Vec<&'static str> = vec![];
             for (k, pq) in &prem {
                 let po = postm.get(k).cloned().unwrap_or_default();
                 match r.get(k).and_then(|v| v.first()).copied() {
-                    None => chk(*pq == po, "lost-or-duplicated", d()),
+                    None => {
+                        chk(*pq == po, "lost-or-duplicated", d());
+                        branches.push("branch:keyedSingleton:key-withheld");
+                    }
                     Some(x) => {
                         let new = match slot.last_k.get(k) {
                             Some(l) => {
@@ -412,9 +454,21 @@ fn oracle_release(rec: &mut Recorder, slot: &mut Slot, pre: &Snap, out: &[Msg], 
                             chk(*pq == po, "lost-or-duplicated", d());
                         }
                         slot.last_k.insert(*k, x);
+                        branches.push(if !new && !pq.is_empty() {
+                            "branch:keyedSingleton:unchanged-with-pending"
+                        } else if !new {
+                            "branch:keyedSingleton:unchanged-empty-queue"
+                        } else if pq.first() != Some(&x) {
+                            "branch:keyedSingleton:new-skipping-older"
+                        } else {
+                            "branch:keyedSingleton:new-oldest"
+                        });
                         any_new |= new;
                     }
                 }
+            }
+            for b in branches {
+                rec.count(b);
             }
             any_new
         }
@@ -511,7 +565,23 @@ impl Case {
                 format!("can {i}"),
                 if oob(*i) { "bad-op".into() } else { self.hooks[*i].can_make_nontrivial_decision().to_string() },
             ),
-            Op::Ready(i) => (format!("ready {i}"), if oob(*i) { "bad-op".into() } else { self.hooks[*i].is_ready().to_string() }),
+            Op::Ready(i) => {
+                if oob(*i) {
+                    return Some((format!("ready {i}"), "bad-op".into()));
+                }
+                let r = self.hooks[*i].is_ready();
+                let kind = self.slots[*i].h.kind;
+                // oracle: a snapshot hook is ready once it has a value to hand out (buffered or released
+                // before, by the oracle's own record); every other hook is always ready
+                let expect = match kind {
+                    Kind::Singleton | Kind::Passthrough => {
+                        !self.slots[*i].h.q.as_ref().map(|q| q.borrow().is_empty()).unwrap_or(true) || self.slots[*i].last.is_some()
+                    }
+                    _ => true,
+                };
+                rec.check(r == expect, &format!("is-ready-mismatch@{}", kind.site()), &format!("got {r} expected {expect}"));
+                (format!("ready {i}"), r.to_string())
+            }
             Op::ObsCan(i) => {
                 let line = format!("obscan {i}");
                 if oob(*i) {
@@ -546,7 +616,7 @@ impl Case {
                         rec.check(!(*force && can) || nt, &format!("forced-decision-trivial@{}", kind.site()), &line);
                         let cur = self.hooks[*i].current_decision();
                         rec.check(
-                            cur == Some(nt) || (kind == Kind::Passthrough && !nt),
+                            cur == Some(nt),
                             &format!("decision-flag-mismatch@{}", kind.site()),
                             &format!("returned {nt} current_decision {cur:?}"),
                         );
@@ -607,9 +677,6 @@ impl Case {
                 rec.count(&format!("run:hooks={n}"));
                 let idle = (0..n).all(|i| self.hooks[i].current_decision().is_none());
                 let can_run = (0..n).all(|i| self.hooks[i].is_ready()) && (0..n).any(|i| self.can_release(i));
-                let passthrough_empty = (0..n).any(|i| {
-                    self.slots[i].h.kind == Kind::Passthrough && !self.hooks[i].can_make_nontrivial_decision() && self.hooks[i].current_decision().is_none()
-                });
                 let ks_ok = (0..n).all(|i| self.slots[i].h.kind != Kind::KeyedSingleton || keyed_singleton_wf(&self.slots[i]));
                 for i in 0..n {
                     if self.hooks[i].current_decision().is_none() {
@@ -645,11 +712,9 @@ impl Case {
                     Err(e) => {
                         self.dead = true;
                         let legit = !can_run || !idle || !ks_ok;
-                        if passthrough_empty && !legit {
-                            rec.check(false, "panic@run_hooks:PassthroughSingletonHook-empty-buffer", &format!("{line}: {e}"));
-                        } else {
-                            rec.check(legit, "panic@run_hooks", &format!("{line}: {e}"));
-                        }
+                        // a runnable tick with idle, well-formed hooks must be resolved without a panic
+                        // (F36, fixed: an empty PassthroughSingletonHook buffer used to panic here)
+                        rec.check(legit, "panic@run_hooks", &format!("{line}: {e}"));
                         rec.count("panic");
                         (line, "panic".into())
                     }
